@@ -181,8 +181,10 @@ Proof. induction v; simpl; auto using Z.eqb_refl, zlist_eqb_refl, zmap_eqb_refl.
 Lemma persisted_unchanged : forall cols c, In c (set_persisted cols) -> vm_changed c = false.
 Proof.
   intros cols c H. unfold set_persisted in H. apply in_map_iff in H. destruct H as (c0 & <- & _).
-  destruct (vm_changed c0) eqn:E; auto.
-  unfold vm_changed. simpl. rewrite val_eqb_refl. destruct (is_container (c_kind c0)); auto. rewrite andb_false_r. auto.
+  assert (R : forall k v e, vm_changed {| c_name := c_name c0; c_kind := k; c_part := c_part c0; c_clust := c_clust c0;
+                                         c_static := c_static c0; c_val := v; c_prev := v; c_expl := e |} = false).
+  { intros k v e. unfold vm_changed. simpl. rewrite val_eqb_refl. destruct e; auto. destruct (is_container k); auto. rewrite andb_false_r. auto. }
+  destruct (vm_changed c0) eqn:E; simpl; [apply R|]. destruct (vm_deleted c0); [apply R | auto].
 Qed.
 
 (* DMLQuery.update leaves the clustering key out of WHERE only when EVERY column it assigns is static *)
